@@ -28,7 +28,9 @@ plus a few timing cases on adversarial families (long runs of one character).
      metamodel may then hold a half-initialised instance is counted, `half_built_metamodels`, not demanded: the property
      speaks about the loader's content only).
   K  lean/PyxModel/Sql: the model's accepted/rejected classification of every text, the accumulated statement list
-     and the build outcome (ok | parsing | meta | builtin) equal the implementation's; and what `float()` reads from every
+     and the build outcome (ok | parsing | meta | builtin) equal the implementation's; the TOKEN STREAM of every text, from the model's hand matchers and from the generic regex
+     engine on the parse trees generated from the `t_*` regexes, equals that of the real PLY lexer (token types and a digest
+     of the lexemes); and what `float()` reads from every
      INSERT value that has the form of a number (at most 15 digits, at most six of them after the point, any `\\d`
      characters) equals the model's `parseReal`.  Python's Unicode tables for the
      non-ASCII characters of a case (\\d, \\w, str.upper) are passed to the model as its parameter.
